@@ -150,7 +150,11 @@ impl BlobFile {
         frag_map.get(&self.id()).is_some_and(|x| {
             let stale_bytes = x.bytes;
             let all_bytes = self.0.meta.total_uncompressed_bytes;
-            stale_bytes == all_bytes
+
+            // NOTE: Comparing bytes alone is not enough: empty blobs (separation threshold 0)
+            // do not add any bytes, so a file could look dead while some of its (empty) blobs
+            // are still referenced
+            stale_bytes == all_bytes && x.len as u64 == self.0.meta.item_count
         })
     }
 }
